@@ -202,6 +202,12 @@ fn hpx_uniq<T: Idx + num::CheckedAdd>(sink: &mut Sink, rng: &mut Rng, w: u32, th
       format!("{}|{}", d, fmt_ranges(&to_u64_ranges(&back.0 .0)))
     }));
     sink.emit(&format!("same hpx-uniq-ranges{} {} {}", w, d, fmt_ranges(&l)), &ans, !l.is_empty());
+    // `iter_depth_pix` (`HpxUniq2DepthIdxIter`): the (depth, index) cells, in its own emission order
+    let ans = guarded(AssertUnwindSafe(|| {
+      let v: Vec<String> = m.clone().into_moc_ranges().iter_depth_pix().take(3001).map(|(dd, ii)| format!("{}/{}", dd, ii.to_u64())).collect();
+      if v.len() > 3000 { "skip".to_string() } else if v.is_empty() { "_".to_string() } else { v.join(",") }
+    }));
+    if ans != "skip" { sink.emit(&format!("r_depthidx {} {}", w, fmt_ranges(&l)), &ans, !l.is_empty()); }
     // the NUNIQ -> nested iterator itself (`UniqToHpxIter`), range by range, on the NUNIQ ranges of this MOC
     let ans = guarded(AssertUnwindSafe(|| {
       let u = m.clone().into_moc_ranges().into_hpx_uniq();
